@@ -93,3 +93,66 @@ theorem edges_ne_nil {n : Nat} {g : Mask} (hg : g < 2 ^ n) (h0 : g ≠ 0) : edge
   have : i ∈ edges n g := mem_edges.mpr ⟨hin, by rw [hasEdge_iff]; exact hi⟩
   rw [hnil] at this; simp at this
 end Momtrop.Mask
+
+namespace Momtrop.Mask
+
+theorem popcount_zero : popcount 0 = 0 := by unfold popcount; rfl
+
+theorem popcount_pos (g : Nat) (h : g ≠ 0) : popcount g = g % 2 + popcount (g / 2) := by
+  cases g with
+  | zero => exact absurd rfl h
+  | succ n => rw [popcount]
+
+theorem range_succ_filter (n : Nat) (p : Nat → Bool) :
+    ((List.range (n + 1)).filter p).length
+      = (if p 0 then 1 else 0) + ((List.range n).filter fun i => p (i + 1)).length := by
+  rw [List.range_succ_eq_map, List.filter_cons]
+  have : (List.filter p (List.map Nat.succ (List.range n))).length
+      = ((List.range n).filter fun i => p (i + 1)).length := by
+    rw [List.filter_map, List.length_map]; rfl
+  by_cases h0 : p 0 <;> simp [h0, this] <;> omega
+
+/-- `count_ones` of an id below `2^n` is the number of edges it lists -/
+theorem popcount_eq_card (n : Nat) : ∀ g : Nat, g < 2 ^ n → popcount g = (edges n g).length := by
+  induction n with
+  | zero =>
+    intro g hg
+    have : g = 0 := by simpa using hg
+    subst this; simp [popcount_zero, edges]
+  | succ n ih =>
+    intro g hg
+    by_cases h0 : g = 0
+    · subst h0; rw [popcount_zero, edges_zero]; rfl
+    · rw [popcount_pos g h0]
+      have hhalf : g / 2 < 2 ^ n := by
+        rw [Nat.pow_succ] at hg; omega
+      rw [ih (g / 2) hhalf]
+      unfold edges
+      rw [range_succ_filter]
+      have h1 : (if hasEdge g 0 = true then 1 else 0) = g % 2 := by
+        rw [hasEdge_iff, Nat.testBit_zero]
+        rcases Nat.mod_two_eq_zero_or_one g with h | h <;> simp [h]
+      have h2 : ((List.range n).filter fun i => hasEdge g (i + 1)) = (List.range n).filter fun i => hasEdge (g / 2) i := by
+        apply List.filter_congr
+        intro i _
+        rw [hasEdge_iff, hasEdge_iff, Nat.testBit_succ]
+      rw [h1, h2]
+
+theorem hasOneEdge_iff {n : Nat} {g : Mask} (hg : g < 2 ^ n) :
+    hasOneEdge g = true ↔ (edges n g).length = 1 := by
+  unfold hasOneEdge
+  rw [popcount_eq_card n g hg]
+  simp
+
+theorem isEmpty_iff_card {n : Nat} {g : Mask} (hg : g < 2 ^ n) : isEmpty g = true ↔ (edges n g).length = 0 := by
+  unfold isEmpty
+  constructor
+  · intro h; have : g = 0 := by simpa using h
+    subst this; rw [edges_zero]; rfl
+  · intro h
+    have hnil : edges n g = [] := List.eq_nil_of_length_eq_zero h
+    by_cases h0 : g = 0
+    · simp [h0]
+    · exact absurd hnil (edges_ne_nil hg h0)
+
+end Momtrop.Mask
